@@ -24,6 +24,7 @@ Section Proofs.
   Notation run_prefix := (run_prefix A eqb).
   Notation execute := (execute A eqb).
   Notation execute_streamed := (execute_streamed A eqb).
+  Notation execute_k := (execute_k A eqb).
   Notation pipeline_recv := (pipeline_recv A eqb).
   Notation evaluate_racy := (evaluate_racy A eqb).
   Notation nofurther_sound := (nofurther_sound A).
@@ -446,6 +447,41 @@ Section Proofs.
       + destruct Hcut as [H0 | Hlen]; [discriminate|].
         rewrite firstn_length, arrange_length in Hlen.
         rewrite firstn_all2; [apply arrange_In; exact Hatt | rewrite arrange_length; lia].
+  Qed.
+
+  (* a failure that is not a condition-evaluation error (datastore fault, depth) never yields a
+     list: the response is the error *)
+  Theorem execute_k_other_fails : forall (check : A -> bool) cands limit arrival k,
+    execute_k cands check limit arrival (Some (k, OtherError)) = ListObjects.Failed A.
+  Proof. reflexivity. Qed.
+
+  (* hence: a SUCCESSFUL, uncut unary response is the complete permitted set whenever the only
+     error that may have occurred is not (a condition error with maxResults = 0) *)
+  Theorem execute_k_complete_partial : forall (P check : A -> bool) univ cands limit arrival err l,
+    (forall k, err <> Some (k, CondError)) \/ 0 < limit ->
+    (forall o, P o = true -> check o = true) ->
+    complete P univ cands = true ->
+    execute_k cands check limit arrival err = ListObjects.Objects A l ->
+    limit = 0 \/ length l < limit ->
+    forall o, In o univ -> P o = true -> In o l.
+  Proof.
+    intros P check univ cands limit arrival err l Htrig Hchk Hc He Hcut o Hu HP.
+    unfold ListObjects.execute_k in He. destruct err as [[k kind]|].
+    - destruct kind; [|discriminate].
+      eapply (execute_complete_partial P check univ cands limit arrival (Some k) l); try eassumption.
+      destruct Htrig as [Hn | Hpos]; [exfalso; apply (Hn k); reflexivity | right; exact Hpos].
+    - eapply (execute_complete_partial P check univ cands limit arrival None l); try eassumption.
+      left. reflexivity.
+  Qed.
+
+  Theorem execute_k_sound : forall (P check : A -> bool) cands limit arrival err l,
+    (forall o, check o = true -> P o = true) ->
+    nofurther_sound P cands = true ->
+    execute_k cands check limit arrival err = ListObjects.Objects A l ->
+    NoDup l /\ forall o, In o l -> P o = true.
+  Proof.
+    intros P check cands limit arrival err l Hchk Hnf He. unfold ListObjects.execute_k in He.
+    destruct err as [[k kind]|]; [destruct kind; [|discriminate]|]; eapply execute_sound; eassumption.
   Qed.
 
   Theorem execute_streamed_sound : forall (P check : A -> bool) cands arrival err_after,
